@@ -4,7 +4,7 @@ from __future__ import annotations
 from hypothesis import strategies as st
 
 from vk.core import Facet
-from vk.refmodel import canon, canon_str, depth, depth_expansion
+from vk.refmodel import canon, canon_str, depth, depth_expansion, safe_canon, safe_depth
 from vk.sources import ScriptedSource, Unbounded, enumerate_all
 from vk.spec import Flags, spec_str, specs
 from vk.world import World, exc_bucket, is_library_error, world_cases
@@ -35,9 +35,9 @@ def _judge_depth(rec, rep, case, w, p, how, d, exp=False):
     info = w.info
     # The property defines depth as the longest chain of nested grammar nodes, in both
     # depth-counting modes; the documented expansion measure is only recorded as a label.
-    dep = depth(p, info)
-    c = canon(p, info)
-    if exp and depth_expansion(p, info.start, info) > d:
+    dep = safe_depth(p, info)
+    c = safe_canon(p, info)
+    if exp and dep < 10**6 and depth_expansion(p, info.start, info) > d:
         rec.label("info:expansion-measure-exceeds-limit")
     if dep > d:
         rec.fail(
@@ -229,14 +229,14 @@ class FrontierExhaustive(Facet):
                             f"tree creation (decider {case['decider']}, max_depth {d} >= min {w.min_depth}) raised {exc!r} on decision path {[t[2] for t in trace]}; grammar {spec_str(case['spec'])}",
                         )
                         continue
-                    dep = depth(p, info)
+                    dep = safe_depth(p, info)
                     if dep > d:
                         rec.fail(
                             f"C03/depth-exceeded/tree/{case['decider']}/create",
-                            f"decision path {[t[2] for t in trace]} (decider {case['decider']}, max_depth {d}) gives depth {dep}: {canon_str(canon(p, info))}; grammar {spec_str(case['spec'])}",
+                            f"decision path {[t[2] for t in trace]} (decider {case['decider']}, max_depth {d}) gives depth {dep}: {canon_str(safe_canon(p, info))}; grammar {spec_str(case['spec'])}",
                         )
                     if dep == d:
-                        rec.nontrivial(("tree", case["decider"], canon(p, info)))
+                        rec.nontrivial(("tree", case["decider"], safe_canon(p, info)))
             except Unbounded:
                 rec.discard()
                 return
@@ -295,16 +295,36 @@ class Initializers(Facet):
             rec.sample({"spec": spec_str(case["spec"]), "init": "FullInitializer", "max_depth": d})
             for ind in inds:
                 p = ind.get_phenotype()
-                dep = depth(p, w.info)
+                dep = safe_depth(p, w.info)
                 if dep > d:
                     rec.fail(
                         "C03/depth-exceeded/initializer-full",
-                        f"FullInitializer(max_depth={d}) produced depth {dep}: {canon_str(canon(p, w.info))}; grammar {spec_str(case['spec'])}",
+                        f"FullInitializer(max_depth={d}) produced depth {dep}: {canon_str(safe_canon(p, w.info))}; grammar {spec_str(case['spec'])}",
                     )
                 if dep == d:
-                    rec.nontrivial(("init-full", canon(p, w.info)))
+                    rec.nontrivial(("init-full", safe_canon(p, w.info)))
         finally:
             w.cleanup()
 
 
-FACETS = [DepthOps(), DepthOpsExpansion(), BelowMinimum(), FrontierExhaustive(), Initializers()]
+class MutationChains(DepthOps):
+    """One lineage mutated again and again under the same limit (also with a production as
+    start symbol): the limit must stay usable after ANY sequence of mutations."""
+
+    name = "mutation_chains"
+    reps = ("tree", "ge", "dsge")
+
+    def budget(self, tier):
+        return (60, 6) if tier == "quick" else (400, 16)
+
+    def strategy(self, tier):
+        fl = self.flags.replace(concrete_start="always", min_extra_concrete=2, bare_lists=False, max_list_size=2)
+        fl2 = self.flags
+        base = st.one_of(
+            world_cases(fl, reps=self.reps, deciders=("maxdepth", "full"), max_ops=1, depth_extras=(0, 1, 2, 3)),
+            world_cases(fl2, reps=self.reps, deciders=("maxdepth", "full", "pigrow"), max_ops=1, depth_extras=(0, 1, 2, 3)),
+        )
+        return st.builds(lambda c, n, x: {**c, "ops": [["create"], ["create"]] + [["mutate", -1]] * n + ([["crossover", -1, 0]] if x else []) + [["mutate", -1]] * 2}, base, st.integers(3, 12), st.booleans())
+
+
+FACETS = [DepthOps(), DepthOpsExpansion(), BelowMinimum(), FrontierExhaustive(), Initializers(), MutationChains()]
